@@ -392,6 +392,12 @@ func checkC03(c *Ctx) {
 	r.Rule("R03b", "verb: for every verb and for the defaulting cases (config absent, verb unset) all five generators publish the same verb, in the exact case their consumer needs (upper-case in code, lower-case key in OpenAPI)", 20)
 	r.Rule("R03c", "placement: all generators take the path-variable list and the query-field list from the shared accessors, announce every path variable, extract it from the segment where the agreed template has it, and put query fields on the wire for the same verbs", 20)
 	c18OperationParameters(c, "R03f")
+	r.Rule("R03g", "the Go server binds every query and path field the other generators place in the URL: the binders' loop over the parameter table is left only with a violation (shared with C02/R02r)", 2)
+	if ep3, err3 := c.ServerRuntime(); err3 != nil {
+		r.Unres("R03g", "emitted server runtime", "", err3.Error())
+	} else {
+		bindersVisitEveryParameter(c, ep3, "R03g")
+	}
 	r.Rule("R03e", "the TS client fills a path variable from the request property of the field's JSON name, also for names with upper-case letters, digits or several underscores", 1)
 	tsPathPropertyNames(c, "R03e")
 	r.Rule("R03d", "one operation per RPC: processService visits every method exactly once, processMethod keys the path item by the evaluated path, fetches an existing item before assigning, and the verb→slot switch is the identity", 6)
